@@ -116,7 +116,8 @@ def range_and_case(check: Check, repo: Repo, tier: str = "quick") -> None:
     from ..squashsem import check_squash
 
     construct = f"{CHOICE_REL}::build_optimized_pattern"
-    n, squashed, bad = check_squash(repo, construct, ["k", "K", "\u212a", "\u00df"], 1, False)
+    # literals of length 1 and 2: single characters go into the class, longer ones keep a part of their own
+    n, squashed, bad = check_squash(repo, construct, ["k", "K", "\u212a", "."], 2, False)
     check.count("case_fold_sites", squashed)
     cats: dict[str, list[str]] = {}
     for cat, msg in bad:
